@@ -100,6 +100,7 @@ WRAP_SYMS = [
     "pthread_mutex_unlock", "pthread_mutex_init", "pthread_mutex_destroy", "pthread_cond_init", "pthread_cond_destroy",
     "pthread_cond_wait", "pthread_cond_timedwait", "pthread_cond_signal",
     "pthread_cond_broadcast", "clock_gettime", "nanosleep", "pthread_self", "pthread_equal", "posix_memalign", "free",
+    "pthread_once",
 ]
 
 
